@@ -491,6 +491,13 @@ class Tracer:
         if k == 'block' and not c['stmts'] and 'tail' in c:
             return self.cond_eval(c['tail'])
         r = self.expr(c)
+        if self.cond_events and isinstance(c, dict) and c.get('k') == 'call' and short(callee(c)) in ('is_some', 'is_none', 'is_ok', 'is_err') \
+                and c['args'] and c['args'][0].get('k') == 'path' and c['args'][0].get('name') in self.cond_events:
+            n = c['args'][0]['name']
+            pos = short(callee(c)) in ('is_some', 'is_ok')
+            th = {(ex, t + (f'?{n}={int(pos)}',) if ex == 'fall' else t, v) for (ex, t, v) in r}
+            el = {(ex, t + (f'?{n}={int(not pos)}',) if ex == 'fall' else t, v) for (ex, t, v) in r}
+            return th, el
         if self.cond_events:
             inner = c
             if isinstance(inner, dict) and (inner.get('k') == 'path' and inner.get('res') == 'local' or inner.get('k') == 'field') \
